@@ -163,6 +163,9 @@ def edits(req):
                         o.parents = [R(p) for p in val]
                     elif name in ("author_time", "commit_time", "author_tz", "commit_tz"):
                         setattr(o, {"author_tz": "author_timezone", "commit_tz": "commit_timezone"}.get(name, name), val)
+                        if name in ("author_tz", "commit_tz"):
+                            # the "-0000" spelling belongs to the zone that was there, not to the one assigned
+                            f[{"author_tz": "author_neg", "commit_tz": "commit_neg"}[name]] = False
                     elif name in ("message", "encoding", "gpgsig"):
                         setattr(o, name, opt(val))
                     else:
@@ -172,6 +175,8 @@ def edits(req):
                         o.object = (O.Commit, R(val)); f["type"] = "commit"
                     elif name in ("tag_time", "tag_tz"):
                         setattr(o, {"tag_tz": "tag_timezone"}.get(name, name), val)
+                        if name == "tag_tz":
+                            f["tag_neg"] = False
                     elif name in ("message", "signature"):
                         setattr(o, name, opt(val))
                     else:
